@@ -218,6 +218,9 @@ func (e *Explorer) children(x *Exec, from int, f func(prefix []int)) {
 				if alt == p.Chosen {
 					continue
 				}
+				if p.Focus != nil && !p.Focus[alt] {
+					continue
+				}
 				if !e.Bounds.admits(u.add(p.Costs[alt])) {
 					continue
 				}
